@@ -86,10 +86,10 @@ def gen_cases(rng, n):
     for spec in ("u 40 30", "u 120 700", "16 80 10", "64 160 20", "512 400 90"):
         cases.append("XW " + spec)
     for _ in range(n):
-        fam = rng.choice(["U", "X", "BU", "BX", "BU", "BX"])
+        fam = rng.choice(["U", "X", "BU", "BX", "BU", "BX", "US", "UT", "BUS", "BUT"])
         q = "q1" if rng.random() < 0.25 else "q0"
         nops = rng.choice([1, 3, 8, 20])
-        if fam in ("U", "X"):
+        if fam in ("U", "X", "US", "UT"):
             cases.append("%s %s %s %s" % (fam, rng.choice("bn"), q, gen_ops(rng, nops, fam == "X", False, None)))
         else:
             cap = rng.choice(["d", "d", "0", "1", "16", "64", "512", "1432"])
@@ -196,7 +196,7 @@ def judge(case, obs):
     st = [int(x) for x in parts["S"].split(".")]
     ops = [] if t[-1] == "-" else t[-1].split(",")
     queued = len(t) > 2 and t[2] == "q1"
-    if t[0] in ("U", "X", "UA"):
+    if t[0] in ("U", "X", "UA", "US", "UT"):
         # one datagram per accepted emit, payload exactly the metric, in order; figures = counts/lengths of Ok/Err emits
         want_dg, ok_b, ok_n, er_b, er_n = [], 0, 0, 0, 0
         up = True
@@ -348,7 +348,7 @@ def run_sock_check(prop, tier, seed):
         dist["listener_toggles"] += t[-1].count("l")
         dist["refused"] += o.count(",e") + o.count(":e")
         dist["datagrams"] += o.split("|D:")[1].split("|")[0].count(";") + 1 if "|D:" in o and o.split("|D:")[1][0] != "|" else 0
-        if "l" in t[-1] or t[0] in ("BU", "BX") or "q1" in t:
+        if "l" in t[-1] or t[0] in ("BU", "BX", "BUS", "BUT") or "q1" in t:
             nt.add(case_hash(c))
     rep.cov["evaluations"] = len(cases) + len(conc)
     rep.cov["distinct_nontrivial"] = len(nt)
